@@ -1,12 +1,93 @@
 // C01 — No coins are created beyond the block subsidy schedule.
-// chainsim over the value menu: exact / over / under-claiming coinbases, in==out, out>in (single and split),
-// negative / over-range outputs, output-sum overflow, fees claimed from an invalid tx, same-block fee chains.
-// Oracle: blocks the reference ledger rejects never enter the active chain; active chain is most-work valid;
-// UTXO == reference; sum(UTXO) <= sum of subsidies.
+// (1) chainsim over the value menu: exact / over / under-claiming coinbases, in==out, out>in (single and split),
+//     negative / over-range outputs, output-sum overflow, fees claimed from an invalid tx, same-block fee chains.
+//     Oracle: blocks the reference ledger rejects never enter the active chain; active chain is most-work valid;
+//     UTXO == reference; sum(UTXO) <= sum of subsidies.
+// (2) Input-side value rules, which regtest subsidies cannot reach through blocks: Consensus::CheckTxInputs over a
+//     hand-seeded coins view with coins at the MoneyRange boundaries (complete cross product, __int128 reference).
 #include <kits/chainsim_main.h>
+#include <consensus/tx_verify.h>
+#include <consensus/tx_check.h>
+
+static void InputValueEnumeration()
+{
+    auto& E = vx::ev();
+    const CAmount M = MAX_MONEY;
+    const std::vector<CAmount> coin_vals{0, 1, M / 2, M / 2 + 1, M - 1, M, M + 1, -2, std::numeric_limits<CAmount>::max(), std::numeric_limits<CAmount>::min()};
+    const std::vector<CAmount> out_vals{0, 1, M / 2, M / 2 + 1, M - 1, M};
+    uint64_t n = 0, accepted = 0, rejected = 0;
+    vx::Distinct classes;
+    for (int nin = 1; nin <= 3; nin++) {
+        std::vector<size_t> idx(nin, 0);
+        for (;;) {
+            // coins view with these inputs (mature, non-coinbase and one coinbase variant)
+            for (int cbdepth : {-1, 99, 100}) { // -1: not a coinbase; else coinbase at that depth
+                CCoinsView* base = &CoinsViewEmpty::Get();
+                CCoinsViewCache view(base, /*deterministic=*/true);
+                CMutableTransaction tx;
+                __int128 in_sum = 0;
+                bool any_bad_coin = false, partial_bad = false;
+                for (int i = 0; i < nin; i++) {
+                    COutPoint op(Txid::FromUint256(uint256{(uint8_t)(i + 1)}), 0);
+                    CAmount v = coin_vals[idx[i]];
+                    bool is_cb = cbdepth >= 0 && i == 0;
+                    view.AddCoin(op, Coin(CTxOut(v, CScript() << OP_TRUE), is_cb ? 1000 - cbdepth : 10, is_cb), false);
+                    tx.vin.emplace_back(op);
+                    in_sum += v;
+                    if (v < 0 || v > M) any_bad_coin = true;
+                    if (in_sum < 0 || in_sum > M) partial_bad = true;
+                }
+                for (size_t o1 = 0; o1 < out_vals.size(); o1++)
+                    for (size_t o2 = 0; o2 <= out_vals.size(); o2++) {
+                        tx.vout.clear();
+                        tx.vout.emplace_back(out_vals[o1], CScript() << OP_TRUE);
+                        if (o2 < out_vals.size()) tx.vout.emplace_back(out_vals[o2], CScript() << OP_TRUE);
+                        __int128 out_sum = 0;
+                        for (auto& o : tx.vout) out_sum += o.nValue;
+                        // precondition of CheckTxInputs (as in every caller): CheckTransaction passed
+                        CTransaction ctx(tx);
+                        TxValidationState pre;
+                        if (!CheckTransaction(ctx, pre)) continue;
+                        TxValidationState st;
+                        CAmount fee = -12345;
+                        bool ok = Consensus::CheckTxInputs(ctx, st, view, /*nSpendHeight=*/1000, fee);
+                        n++;
+                        // reference: premature coinbase spend, every input and every partial sum in range, in >= out
+                        bool premature = cbdepth >= 0 && cbdepth < 100;
+                        bool want = !premature && !any_bad_coin && !partial_bad && in_sum >= out_sum;
+                        (ok ? accepted : rejected)++;
+                        classes.add(std::string(ok ? "ok" : st.GetRejectReason()));
+                        std::string desc = "inputs=";
+                        for (int i = 0; i < nin; i++) desc += std::to_string(coin_vals[idx[i]]) + ",";
+                        desc += " outputs=";
+                        for (auto& o : tx.vout) desc += std::to_string(o.nValue) + ",";
+                        desc += " coinbase_depth=" + std::to_string(cbdepth);
+                        if (ok != want) vx::violation("C01-checktxinputs-verdict:" + std::string(want ? "valid-rejected" : "invalid-accepted"), "Consensus::CheckTxInputs " + std::string(ok ? "accepted" : "rejected (" + st.GetRejectReason() + ")") + " a transaction the value rules " + (want ? "allow" : "forbid") + ": " + desc, desc);
+                        else if (ok && (__int128)fee != in_sum - out_sum) vx::violation("C01-checktxinputs-fee", "fee reported " + std::to_string(fee) + " != sum(in) - sum(out): " + desc, desc);
+                        if (n == 1 || n == 5000) E.sample("CheckTxInputs case: " + desc + " -> " + (ok ? "ok fee=" + std::to_string(fee) : st.GetRejectReason()));
+                    }
+            }
+            int k = 0;
+            for (; k < nin; k++) { if (++idx[k] < coin_vals.size()) break; idx[k] = 0; }
+            if (k == nin) break;
+        }
+    }
+    E.evaluations += n;
+    E.distinct_nontrivial += classes.size();
+    E.set("checktxinputs_cases", n);
+    E.set("checktxinputs_accepted", accepted);
+    E.set("checktxinputs_rejected", rejected);
+    if (accepted == 0 || rejected == 0) { printf("HARNESS-ERROR property=C01 input-value enumeration is vacuous\n"); exit(2); }
+}
+
 int main(int argc, char** argv)
 {
-    return cs::Main(argc, argv, "C01", {}, [](cs::Sim& s) {
+    vx::init(argc, argv, "C01", "model_checking", 170, 1500);
+    if (vx::ctx().replay.empty()) {
+        ECC_Context ecc;
+        InputValueEnumeration();
+    }
+    int rc = cs::Explore("C01", {}, [](cs::Sim& s) {
         cs::Plan p;
         s.kinds = {"spend1", "cb_plus1", "cb_plus1_empty", "cb_minus1", "cb_two_outs_plus1", "out_gt_in", "out_gt_in_split", "out_eq_in",
                    "out_negative", "out_maxplus1", "outs_sum_overflow", "fee_from_later_invalid", "chain2"};
@@ -15,7 +96,9 @@ int main(int argc, char** argv)
         p.depth = vx::thorough() ? 4 : 2;
         s.max_new_blocks = p.depth;
         p.split = 1;
-        p.what = "oracle: a block the reference ledger rejects (value rules) is never in the active chain; tip is a most-work valid delivered chain; UTXO == reference; sum(UTXO) <= subsidy schedule";
+        p.what = "oracle: a block the reference ledger rejects (value rules) is never in the active chain; tip is a most-work valid delivered chain; UTXO == reference; sum(UTXO) <= subsidy schedule; plus the complete cross product of boundary coin values x 1-3 inputs x 1-2 outputs x coinbase depth through Consensus::CheckTxInputs vs an __int128 reference";
         return p;
     });
+    if (rc >= 0) return rc;
+    return vx::finish();
 }
